@@ -2,6 +2,7 @@ INIT Init
 NEXT Next
 VIEW View
 INVARIANT Sandwich
+INVARIANT Ordered
 INVARIANT Coverage
 INVARIANT Witness
 CHECK_DEADLOCK FALSE
